@@ -2275,11 +2275,20 @@ func (g *ioGen) run(step stepper) {
 			// notification, a call of our own) to a stream that takes each Write in 2-3 pieces
 			var ms []string
 			tags := []string{"write:concurrent"}
+			answered := map[string]bool{} // one answer per id in one op: which of two would fill the slot is the scheduler's choice
 			for i, n := 0, 2+r.Intn(3); i < n; i++ {
-				switch c := r.Intn(6); {
-				case c < 2 && len(g.pending) > 0:
-					j := r.Intn(len(g.pending))
+				c := r.Intn(6)
+				var open []int // pending calls not answered in this op
+				for j, id := range g.pending {
+					if !answered[id] {
+						open = append(open, j)
+					}
+				}
+				switch {
+				case c < 2 && len(open) > 0:
+					j := open[r.Intn(len(open))]
 					id := g.pending[j]
+					answered[id] = true
 					g.pending = append(g.pending[:j], g.pending[j+1:]...)
 					ms = append(ms, "resp "+id+" o{ 74657874 s"+hxs(strings.Repeat("payload-", 1+r.Intn(40)))+" } -")
 					tags = append(tags, "cw:answer")
